@@ -6,7 +6,7 @@
 (* the grammars used as identifiers, digits, underscores).                                       *)
 EXTENDS Integers, Sequences, FiniteSets, TLC, Json
 CONSTANT Full            \* TRUE: the whole bounded language; FALSE: the core used on every change
-Nm == {"K", "K0", "take", "pos", "_x", "A1", "nway_shape"}
+Nm == {"K", "K0", "take", "pos", "_x", "A1", "nway_shape", "Kpos", "coord", "flatten"}
 Nu == {0, 1, 10}
 W == {"", " "}
 Size == {[t |-> "int", n |-> n] : n \in Nu} \cup {[t |-> "str", s |-> x] : x \in Nm}
@@ -25,26 +25,34 @@ DirectiveMisses == Miss("part", {
      <<"uniform_shape(4 5)", "two sizes">>, <<"shape(4)", "unknown directive">>, <<"uniform_occupancy(A 5)", "missing dot">>,
      <<"uniform_occupancy(.5)", "missing leader">>, <<"uniform_occupancy(A.)", "missing size">>, <<"flatten(1)", "flatten takes nothing">>, <<"follow()", "missing leader">>,
      <<"follow(A.4)", "follow takes a leader only">>, <<"uniform_shape(4))", "trailing token">>, <<"uniform_shape(4$)", "illegal character">>, <<"", "empty">>,
-     <<"nway_shape(-4)", "sizes are unsigned">>, <<"uniform_shape(K+1)", "a size is one number or one name">>})
+     <<"nway_shape(-4)", "sizes are unsigned">>, <<"uniform_shape(K+1)", "a size is one number or one name">>,
+     <<"Uniform_shape(4)", "keywords are lower case">>, <<"uniform_shape2(4)", "unknown directive">>, <<"uniform_shap(4)", "unknown directive">>,
+     <<"flatten ( )", "keyword and parenthesis are one terminal">>, <<"follow (A)", "keyword and parenthesis are one terminal">>, <<"follow(A, B)", "one leader">>,
+     <<"uniform_occupancy(A.4, B.2)", "one leader and size">>, <<"uniform_occupancy(4.A)", "the leader is a name">>, <<"flatten", "missing parentheses">>,
+     <<"uniform_shape[4]", "wrong brackets">>, <<"uniform_shape(4);", "trailing token">>})
 Levels ==
      {Sent("level", n \o a, TRUE, [name |-> n, num |-> 1]) : n \in Nm, a \in W}
-  \cup {Sent("level", n \o a \o "[0.." \o b \o ToString(k) \o c \o "]", TRUE, [name |-> n, num |-> k + 1]) : n \in Nm, k \in Nu \cup {15}, a \in W, b \in W, c \in W}
+  \cup {Sent("level", n \o a \o "[0.." \o b \o ToString(k) \o c \o "]", TRUE, [name |-> n, num |-> k + 1]) : n \in Nm, k \in Nu \cup {15, 127}, a \in W, b \in W, c \in W}
 LevelMisses == Miss("level", {
      <<"PE[0 ..3]", "range opener is one terminal">>, <<"PE[1..3]", "range must start at 0">>, <<"PE[0..]", "missing bound">>, <<"PE[0..3", "unbalanced">>,
-     <<"P E", "two names">>, <<"[0..3]", "missing name">>, <<"PE[0..3]]", "trailing token">>, <<"PE[0..N]", "bound must be a number">>})
+     <<"P E", "two names">>, <<"[0..3]", "missing name">>, <<"PE[0..3]]", "trailing token">>, <<"PE[0..N]", "bound must be a number">>,
+     <<"PE[0..3][0..2]", "two ranges">>, <<"PE(0..3)", "wrong brackets">>, <<"PE[0-3]", "range needs ..">>, <<"PE[..3]", "range must start at 0">>, <<"PE[0..-3]", "bounds are unsigned">>})
 Stamps ==
      {Sent("stamp", n \o a, TRUE, [rank |-> n, style |-> "pos"]) : n \in Nm, a \in W}
   \cup {Sent("stamp", n \o a \o "." \o s \o b, TRUE, [rank |-> n, style |-> s]) : n \in Nm, s \in {"pos", "coord"}, a \in W, b \in W}
 StampMisses == Miss("stamp", {
      <<"K.position", "unknown style">>, <<"K. pos", "dot and style are one terminal">>, <<".pos", "missing rank">>, <<"K.pos.coord", "two styles">>, <<"K pos", "two names">>,
-     <<"K.", "missing style">>, <<"K.coord1", "trailing characters">>})
+     <<"K.", "missing style">>, <<"K.coord1", "trailing characters">>,
+     <<"K.coordinate", "unknown style">>, <<"K.Pos", "styles are lower case">>, <<"K .pos .pos", "two styles">>, <<"K.pos,", "trailing token">>, <<"(K).pos", "a rank is a name">>})
 Tuples ==
      {Sent("ranks", n \o a, TRUE, [ranks |-> <<n>>]) : n \in Nm, a \in W}
   \cup {Sent("ranks", "(" \o a \o x \o b \o "," \o c \o y \o d \o ")", TRUE, [ranks |-> <<x, y>>]) : x \in {"K", "take", "K0"}, y \in {"M", "pos", "_x"}, a \in W, b \in W, c \in W, d \in W}
   \cup {Sent("ranks", "(K," \o a \o "M" \o b \o "," \o c \o "N)", TRUE, [ranks |-> <<"K", "M", "N">>]) : a \in W, b \in W, c \in W}
+  \cup {Sent("ranks", "(" \o x \o "," \o a \o "M0, N1," \o b \o y \o ")", TRUE, [ranks |-> <<x, "M0", "N1", y>>]) : x \in {"K", "pos"}, y \in {"J", "take"}, a \in W, b \in W}
 TupleMisses == Miss("ranks", {
      <<"(K)", "a tuple needs two ranks">>, <<"(K, M", "unbalanced">>, <<"K, M", "missing parentheses">>, <<"(K M)", "missing comma">>, <<"(K,, M)", "doubled comma">>, <<"()", "empty">>,
-     <<"(K, M,)", "trailing comma">>, <<"(K, 3)", "a rank is a name">>})
+     <<"(K, M,)", "trailing comma">>, <<"(K, 3)", "a rank is a name">>,
+     <<"((K, M), N)", "no nesting">>, <<"(K; M)", "illegal separator">>, <<"[K, M]", "wrong brackets">>, <<"(K, M) N", "trailing token">>})
 -----------------------------------------------------------------------------
 (* Einsum expressions.  Structure: [out |-> access, terms |-> Seq(term)]                         *)
 (*   access = [name, idx : Seq(iexpr)]   iexpr = Seq([c, v])   term = [kind, sel, facs : Seq(factor)]  *)
